@@ -1098,3 +1098,28 @@ def retreg_prog(rng):
     L += ["addi a0, a0, 2", "ret"]          # (the argument is read on every path)
     return "\n".join(L) + "\n", rets, bad
 
+
+
+def ecall_loop_prog(rng):
+    """a loop whose back edge passes an ecall whose number is COMPUTED from an argument register that is set again to the
+    same constant before the ecall: whether the number is known depends on the facts that flow round the loop (round 8: an
+    unknown ecall that kept the a0/a1 facts made the value analysis oscillate for ever)"""
+    r = rng.choice(["a0", "a0", "a1"])
+    num = rng.choice([5, 5, 6, 7, 8, 9, 12, 1, 4, 41, 42, 30])
+    k = rng.choice([0, 0, 1, -1, 3])
+    c = num - k
+    derive = rng.choice(["addi a7, %s, %d" % (r, k), "addi a7, %s, %d" % (r, k)] + (["mv a7, %s" % r, "add a7, %s, zero" % r, "or a7, zero, %s" % r] if k == 0 else []))
+    L = ["main:", "li %s, %d" % (r, c)]
+    if rng.random() < 0.4:
+        L.append("li %s, %d" % ("a1" if r == "a0" else "a0", rng.choice([0, 1, c])))
+    L += ["serve:", derive]
+    if rng.random() < 0.8:
+        L.append("li %s, %d" % (r, c))
+    if rng.random() < 0.3:
+        L.append("li t0, 7")
+    L.append("ecall")
+    if rng.random() < 0.3:
+        L.append("mv t1, a0")
+    L.append(rng.choice(["bnez %s, serve" % r, "bnez a0, serve", "beq a0, a1, serve", "bgtz a0, serve", "blt zero, a1, serve"]))
+    L += ["li a7, 10", "ecall"]
+    return "\n".join(L) + "\n"
